@@ -215,7 +215,7 @@ CHECKS["C13"] = dict(
          "the same with the candles going through any candle manager (collapsing timeframe, gap filling, Heikin-Ashi, lifespan in any "
          "combination: mgr_append on both sides) - timestamps, values and B's entries agree candle by candle and the next append raises alike "
          "(from a parametricity theorem: candle management respects any reflexive relation that implies equal values, clean values and tags); "
-         "for B = VWAP, StandardDeviation or RSI (one managed helper series) the same statement over the relation "same for B" (timestamp, OHLCV, the readings the class looks at, B's and its helper's entries) - calculate() respects it, so B ends with the same readings along every paired history; "
+         "for B = VWAP, StandardDeviation or RSI (one managed helper series) the same statement over the relation same-for-B (timestamp, OHLCV, the readings the class looks at, B's and its helper's entries) - calculate() respects it, so B ends with the same readings along every paired history; "
          "at the level of the container: two Hexitals with different other members and different programs that hand B the same candles and "
          "the same calculate() calls leave B with the same candles and readings. "
          "Tie: the Hexital model (two members, the operations aimed at one of them) run "
